@@ -966,19 +966,32 @@ Definition handle (m : M) (c : conn) (x : msg) (fresh : uuid) (bserial : option 
   end end.
 
 (* ---------------------------------------------------------------- one step *)
-(* fuel of the work loop (the Rust loop has none): more than the number of work items a step can
-   queue — every live entity incl. event subscriptions, service subscriptions and pending calls,
-   squared, plus a slack of 1024 for work already queued by the handler from entities it deleted
-   (e.g. DestroyObject of an object with many services).  C11_work_loop_terminates proves that SOME
-   fuel always suffices; an explicit bound is not proved (site 0 = fuel exhausted). *)
-Definition fuel_for (s : state) : nat :=
-  let per_svc := map_fold (fun _ sv acc =>
-      (size (s_events sv) + size (s_calls sv) + size (s_all sv) + size (s_subs sv) +
-       map_fold (fun _ set a => (size set + a)%nat) 0%nat (s_events sv) + acc)%nat) 0%nat (svcs s) in
-  let per_conn := map_fold (fun _ cs acc => (size (cs_calls cs) + acc)%nat) 0%nat (conns s) in
-  let n := (size (conns s) + size (objs s) + size (svcs s) + size (calls s) + size (chans s)
-           + size (listeners s) + per_svc + per_conn)%nat in
-  S (N.to_nat 1024 + 8 * (S n) * (S n))%nat.
+(* fuel of the work loop (the Rust loop has none), computed from the machine AFTER the handler ran
+   (state and queued work).  It is one more than a potential that every iteration of the loop
+   lowers (Broker/FuelProofs.v, settle_one_pot), so site 0 = "out of fuel" is unreachable:
+     |w_remove_conns| + ends + (3 + |conns|) * (work_len + load)
+   work_len = total length of the nine other work queues; load = everything a connection removal
+   can turn into work items (objects, services, calls, per service its event keys, all-events and
+   service subscribers and the members of every event set, per connection its pending calls);
+   ends = channel ends that are not Closed (a removal queued by the cascade closes one).  Every
+   item other than a connection removal queues at most |conns| + 2 removals and nothing else. *)
+Definition msum `{Countable K} {A} (f : A -> nat) (m : gmap K A) : nat :=
+  map_fold (fun _ v acc => (f v + acc)%nat) 0%nat m.
+Definition open_end (e : end_state) : nat := match e with Closed => 0%nat | _ => 1%nat end.
+Definition chan_weight (ch : chan) : nat := (open_end (ch_s ch) + open_end (ch_r ch))%nat.
+Definition svc_weight (sv : svc) : nat :=
+  (size (s_events sv) + size (s_all sv) + size (s_subs sv) + msum size (s_events sv))%nat.
+Definition state_load (s : state) : nat :=
+  (size (objs s) + size (svcs s) + size (calls s) + msum svc_weight (svcs s)
+   + msum (fun cs => size (cs_calls cs)) (conns s))%nat.
+Definition state_ends (s : state) : nat := msum chan_weight (chans s).
+Definition work_len (w : work) : nat :=
+  (length (w_unsub_ev w) + length (w_unsub_all w) + length (w_svc_destroyed w) + length (w_rm_call w) +
+   length (w_create_obj w) + length (w_create_svc w) + length (w_destroy_svc w) + length (w_destroy_obj w) +
+   length (w_abort w))%nat.
+Definition fuel_for (m : M) : nat :=
+  S (length (w_remove_conns (mw m)) + state_ends (ms m)
+     + (3 + size (conns (ms m))) * (work_len (mw m) + state_load (ms m)))%nat.
 
 Definition step (s : state) (e : event) (fresh : uuid) (bserial : option N) : outcome (state * list out) :=
   let m0 := {| ms := s; mw := work0; mo := [] |} in
@@ -1008,7 +1021,7 @@ Definition step (s : state) (e : event) (fresh : uuid) (bserial : option N) : ou
     end in
   match r with
   | Done m | Fail m =>
-      match settle (fuel_for (ms m)) m with
+      match settle (fuel_for m) m with
       | Done m' | Fail m' => Done (ms m', mo m')
       | Panic site => Panic site
       end
